@@ -492,6 +492,8 @@ class Fn:
                     pass   # (value, overflow-flag).0 of a checked integer operation is the value
                 elif e[0] == 'agg' and e[1] in ('tuple',) and p['i'] < len(e[2]):
                     e = e[2][p['i']]
+                elif e[0] == 'downcast' and e[1][0] == 'agg' and e[1][1].startswith('adt:') and e[1][1].endswith('::' + e[2]) and p['i'] < len(e[1][2]):
+                    e = e[1][2][p['i']]     # (Variant{x, ..} as Variant).i is x
                 elif e[0] == 'agg' and e[1].startswith('closure:'):
                     e = e[2][p['i']] if p['i'] < len(e[2]) else ('field', e, nm)
                 elif self.is_closure and e == ('param', 1, self.local_name(1) or '') or (self.is_closure and e[0] == 'deref' and e[1][0] == 'param' and e[1][1] == 1):
